@@ -765,9 +765,9 @@ class ScipyOptimizeDriver(Driver):
 
         # Note, scipy defines constraints to be satisfied when positive,
         # which is the opposite of OpenMDAO.
-        lower = meta['lower']
-        if isinstance(lower, np.ndarray):
-            lower = lower[idx]
+        # (use the bounds in the optimizer's space, as _confunc does: a negative scaler turns a
+        # lower bound into an upper bound)
+        lower = self._autoscaler.get_bounds_scaling('constraint')[0][name][idx]
 
         if dbl or (lower <= -INF_BOUND):
             return -grad[grad_idx, :]
